@@ -107,8 +107,22 @@ def work(args):
     modname, tier, idx, config, max_execs = args
     mod, progs = _family(modname, tier)
     program = progs[idx]
-    res = explore_program(program, config, mod.check, max_execs,
-                          getattr(mod, "nontrivial", None))
+    from .vloop import ReplayDivergence
+
+    for attempt in (0, 1):
+        try:
+            res = explore_program(program, config, mod.check, max_execs,
+                                  getattr(mod, "nontrivial", None))
+            break
+        except ReplayDivergence as e:
+            # (seen once under extreme machine load; a schedule that really does not replay
+            # fails again and is a harness error for this program, not a crash of the run)
+            if attempt:
+                res = {"executions": 0, "classes": set(), "nontrivial_classes": set(),
+                       "violations": [{"kind": "harness", "decisions": [], "what": [
+                           f"HARNESS nondeterminism: replay diverged twice: {e}"]}],
+                       "max_points": 0, "capped": False, "deadlocks": 0, "replay_checks": 0,
+                       "deviations_completed": None}
     res["idx"] = idx
     res["config"] = config
     res["classes"] = list(res["classes"])
